@@ -29,7 +29,7 @@ UNSEEN = {"f": "zz", "g": "zz", "h": "zz", "u": "zz", "k": 99, "v": 77, "c1": "o
 def case_strategy(draw):
     spec = draw(rich.frame_strategy(min_rows=8, max_rows=30, with_index=False, extra_unused=False))
     d = draw(rich.design(num_pool=("x", "z", "scale(x)", "center(z)", "np.log(p)", "poly(x, 2)", "I(x + z)"), max_groups=2,
-                         grp_pool=tuple(g for g in rich.GRP if "S(" not in g and "Sum" not in g)))  # the statement's blocks are indicator blocks
+                         grp_pool=tuple(g for g in rich.GRP if "S(" not in g and "Sum" not in g and "I(" not in g)))  # the statement's blocks are indicator blocks
     used = sorted(rich.used_columns(d) & set(UNSEEN))
     n = frames.nrows(spec)
     # a factor with one single level in training: next to an intercept its term has no column at all, but a new level
@@ -46,7 +46,8 @@ def case_strategy(draw):
     modes = draw(st.lists(st.sampled_from(["error", "warning", "silent"]), min_size=1, max_size=4))
     return {"kind": "design", "design": d, "frame": spec, "rows": rows, "inject": inject, "modes": modes,
             "as_categorical": draw(st.booleans()), "chain": draw(st.booleans()),
-            "new_index": draw(st.sampled_from([None, None, "reversed", "offset", "strings", "repeated"]))}
+            "new_index": draw(st.sampled_from([None, None, "reversed", "offset", "strings", "repeated"])),
+            "unseen_style": draw(st.sampled_from(["other", "other", "suffix"]))}
 
 
 def new_frames(case):
@@ -58,12 +59,16 @@ def new_frames(case):
         c2 = dict(c)
         if c["name"] in inject:
             vals = list(c["values"])
+            unseen = UNSEEN[c["name"]]
+            if case.get("unseen_style") == "suffix" and isinstance(unseen, str):
+                # a level nobody has seen that begins like the longest level of the training data
+                unseen = max((str(v) for v in c["values"]), key=len) + "0"
             for i in inject[c["name"]]:
-                vals[i] = UNSEEN[c["name"]]
+                vals[i] = unseen
             c2["values"] = vals
             if c["kind"] == "cat":
                 if case.get("as_categorical"):
-                    c2["categories"] = list(c["categories"]) + [UNSEEN[c["name"]]]
+                    c2["categories"] = list(c["categories"]) + [unseen]
                 else:
                     c2 = {"name": c["name"], "kind": "str" if all(isinstance(v, str) for v in vals) else "object", "values": vals}
         inj["cols"].append(c2)
